@@ -230,4 +230,107 @@ class C13Index(Harness):
                          sp.spherical_harmonic_symmetric(l, th), real_harmonic(env, l * (l + 1), th, 0))
 
 
-HARNESSES = [C13Curvature, C13Shape, C13Index]
+def _float_sphere_integral(fn, n_theta=64, n_phi=128):
+    """independent numerical reference (float runs): Gauss-Legendre in cos(theta) x trapezoid in phi, exact for
+    harmonic polynomials far beyond the degrees used here"""
+    import numpy as np
+    x, w = np.polynomial.legendre.leggauss(n_theta)
+    ph = np.linspace(0, 2 * np.pi, n_phi, endpoint=False)
+    TH, PH = np.meshgrid(np.arccos(x), ph, indexing="ij")
+    return float(np.sum(w[:, None] * fn(TH, PH)) * (2 * np.pi / n_phi))
+
+
+def _float_real_harmonic(k, TH, PH):
+    import numpy as np
+    from scipy.special import sph_harm_y
+    l = math.isqrt(k)
+    m = k - l * (l + 1)
+    y = sph_harm_y(l, abs(m), TH, PH)
+    if m == 0:
+        return y.real
+    return (-1) ** abs(m) * np.sqrt(2) * (y.real if m > 0 else y.imag)
+
+
+class C13Volume3D(Harness):
+    name = "C13Volume3D"
+    prop = "C13"
+    bounds = ("PerturbedDroplet3D.volume with 1, 3, 4, 6 (thorough also 8) symbolic amplitudes in [-1, 1], radius and centre "
+              "symbolic: equals the integral of r(theta, phi)^3 sin(theta) / 3 over the sphere, r = R (1 + sum eps_k Y_k) the "
+              "oracle's interface distance; all amplitudes zero: 4 pi R^3 / 3")
+    stubs = ["scipy.integrate.dblquad = the exact integral, defined on integrands sin(theta) * polynomial in the spherical "
+             "harmonics of the integration variables over theta in [0, pi], phi in [0, 2 pi] (exact table of harmonic "
+             "integrals, compared with an independent numerical quadrature in every float run); other domains / integrands: "
+             "unsupported", "spherical harmonics as symbols", "QUADPACK's numerical error is outside the claim"]
+    cost = 3
+    check_defined = False
+    exact_validation = False
+
+    def configs(self, tier):
+        return [dict(modes=m) for m in (1, 3, 4, 6) + ((8,) if tier == "thorough" else ())] + [dict(modes=3, zero=True)]
+
+    def sample(self, cfg, rng):
+        w = dict(R=F(rng.randint(500, 3000), 1000), p0=F(rng.randint(-2000, 2000), 1000),
+                 p1=F(rng.randint(-2000, 2000), 1000), p2=F(rng.randint(-2000, 2000), 1000))
+        for k in range(cfg["modes"]):
+            w[f"a{k}"] = F(rng.randint(-300, 300), 1000)
+        return w
+
+    def body(self, env, cfg):
+        n = cfg["modes"]
+        R = env.real("R", F(1, 10), 5)
+        p = [env.real(f"p{i}", -3, 3) for i in range(3)]
+        half = F(1, 2) if env.mode != "float" else 0.5
+        C = env.D.PerturbedDroplet3D
+        if cfg.get("zero"):
+            V = C(p, R, half, [0] * n).volume
+            env.prove_eq("all amplitudes zero: volume of a sphere", V, env.const(F(4, 3)) * env.pi * R * R * R)
+            return
+        amps = [env.real(f"a{k}", -1, 1) for k in range(n)]
+        V = C(p, R, half, amps).volume
+        if env.mode == "float":
+            import numpy as np
+            from symx.models.integrate import table_float
+
+            def r3(TH, PH):
+                f = np.ones_like(TH)
+                for k, a in enumerate(amps):
+                    f = f + a * _float_real_harmonic(k + 1, TH, PH)
+                return (R * f) ** 3 / 3
+
+            ref = _float_sphere_integral(r3)
+            # the exact table used by the symbolic side against the numerical quadrature (a mismatch is a harness error)
+            for fs in ((("re", 2, 0),) * 3, (("re", 1, 1), ("re", 1, 1), ("re", 2, 0)), (("im", 2, 1), ("im", 2, 1), ("re", 2, 2)),
+                       (("re", 2, 2), ("re", 2, 2)), ()):
+                def prod(TH, PH, fs=fs):
+                    from scipy.special import sph_harm_y
+                    v = np.ones_like(TH)
+                    for kind, l, m in fs:
+                        y = sph_harm_y(l, m, TH, PH)
+                        v = v * (y.real if kind == "re" else y.imag)
+                    return v
+                if abs(table_float(fs) - _float_sphere_integral(prod)) > 1e-10:
+                    raise RuntimeError(f"table of harmonic integrals disagrees with numerical quadrature for {fs}")
+        else:
+            from symx.models.integrate import integrate_sphere
+
+            def oracle(th, ph):
+                f = env.const(1)
+                for k, a in enumerate(amps):
+                    f = f + a * real_harmonic(env, k + 1, th, ph)
+                rr = R * f
+                return rr * rr * rr * env.sin(th) / 3
+
+            ref, _info = integrate_sphere(oracle, "oracle integrand")
+        if env.mode == "float":
+            env.prove_eq("volume = integral of r^3 sin(theta) / 3 over the sphere, r = R (1 + sum eps_k Y_k)", V, ref)
+        else:
+            # tolerance 1e-9 R^3: the code's real harmonics carry the double np.sqrt(2), so that an algebraically
+            # equivalent closed form may differ from the integral by ~1e-16 in exact arithmetic
+            V, ref = env.num(V), env.num(ref)
+            tol = R * R * R / 10 ** 9
+            env.prove("volume = integral of r^3 sin(theta) / 3 over the sphere, r = R (1 + sum eps_k Y_k)",
+                      env.And(V - ref <= tol, ref - V <= tol),
+                      margin=lambda dlt: env.Or(V - ref >= dlt, ref - V >= dlt))
+
+
+HARNESSES = [C13Curvature, C13Shape, C13Index, C13Volume3D]
